@@ -55,7 +55,7 @@ def tree_hash(repo, defines):
     h.update(subprocess.run(['clang++', '--version'], capture_output=True, text=True).stdout.encode())
     h.update(repr(flags(repo, defines)).encode())
     h.update(open(os.path.join(HERE, 'astfilter.c'), 'rb').read())
-    h.update(b'v3')
+    h.update(b'v5')
     for f in source_files(repo):
         h.update(f.encode()); h.update(b'\0'); h.update(open(f, 'rb').read()); h.update(b'\0')
     return h.hexdigest()[:24]
@@ -66,6 +66,10 @@ def run_clang(repo, defines, workdir):
     with open(unity, 'w') as f:
         for s in unity_list(repo):
             f.write('#include "%s"\n' % s)
+        # verification harness text (not repository code): explicit instantiation definitions make clang instantiate
+        # every member of the class templates for the element types the repository uses, so that each member's body
+        # (taken from the repository's headers) is present in the AST
+        f.write('template class uspg_4d<face*>;\ntemplate class uspg_4d<oriented_point>;\ntemplate class uspg_3d<unsigned short>;\n')
     filt = os.path.join(HERE, 'astfilter')
     if not os.path.exists(filt):
         subprocess.check_call(['gcc', '-O2', '-o', filt, os.path.join(HERE, 'astfilter.c')])
@@ -74,7 +78,7 @@ def run_clang(repo, defines, workdir):
     cmd = ['clang++'] + flags(repo, defines) + ['-fsyntax-only', '-Xclang', '-ast-dump=json', unity]
     with open(out, 'wb') as fo, open(err, 'wb') as fe:
         p1 = subprocess.Popen(cmd, stdout=subprocess.PIPE, stderr=fe)
-        p2 = subprocess.Popen([filt, os.path.join(repo, 'src'), os.path.join(repo, 'include')],
+        p2 = subprocess.Popen([filt, os.path.join(repo, 'src'), os.path.join(repo, 'include'), unity],
                               stdin=p1.stdout, stdout=fo, stderr=subprocess.DEVNULL)
         p1.stdout.close()
         p2.wait(); p1.wait()
